@@ -125,6 +125,9 @@ class HTMLParser(object):
             self.reset()
             self.mainLoop()
 
+        if self.strict and self.errors:
+            self.raiseFirstError()
+
     def reset(self):
         self.tree.reset()
         # The phase objects hold per-document state (pending table text, the
@@ -325,8 +328,15 @@ class HTMLParser(object):
         if datavars is None:
             datavars = {}
         self.errors.append((self.tokenizer.stream.position(), errorcode, datavars))
-        if self.strict:
-            raise ParseError(E[errorcode] % datavars)
+        # While the encoding is only tentative this pass may still be abandoned
+        # for a re-parse in the declared encoding, which discards its errors;
+        # _parse raises what is left once the pass has completed
+        if self.strict and self.tokenizer.stream.charEncoding[1] == "certain":
+            self.raiseFirstError()
+
+    def raiseFirstError(self):
+        errorcode, datavars = self.errors[0][1:]
+        raise ParseError(E[errorcode] % datavars)
 
     def adjustMathMLAttributes(self, token):
         adjust_attributes(token, adjustMathMLAttributes)
